@@ -94,23 +94,12 @@ func runC12(r *Report) {
 			}
 			a0, a1 := c.Call.Args[0], c.Call.Args[1]
 			isSumOfInfo := func(v ssa.Value) bool {
-				sl, ok := strip(v).(*ssa.Slice)
-				if !ok {
+				x, _ := sha1Operand(v, 0)
+				if x == nil {
 					return false
 				}
-				al, ok := sl.X.(*ssa.Alloc)
-				if !ok {
-					return false
-				}
-				for _, ref := range *al.Referrers() {
-					if st, ok := ref.(*ssa.Store); ok && st.Addr == ssa.Value(al) {
-						if sc, ok := st.Val.(*ssa.Call); ok && isStdCall(sc, "crypto/sha1", "", "Sum") {
-							fv, _ := loadedField(sc.Call.Args[0])
-							return fv == infoF
-						}
-					}
-				}
-				return false
+				fv, _ := loadedField(x)
+				return fv == infoF
 			}
 			isHash := func(v ssa.Value) bool { fv, _ := loadedField(strip(v)); return fv == hashF }
 			if (isSumOfInfo(a0) && isHash(a1)) || (isSumOfInfo(a1) && isHash(a0)) {
